@@ -9,7 +9,7 @@ echo "| property | applies | check result |" >> $out
 echo "|---|---|---|" >> $out
 for d in seeded/C*/; do
   name=$(basename $d)
-  id=${name%b}   # seeded/C05b is a second change for property C05
+  id=${name%b}   # seeded/C05b is a further change for property C05
   if [ -n "$(git -C /repo status --porcelain --untracked-files=no)" ]; then echo "/repo is dirty, stopping" >&2; exit 2; fi
   how=clean
   if ! git -C /repo apply --check $PWD/$d/patch.diff 2>/dev/null; then
